@@ -8,6 +8,10 @@ Inductive lcdemand := DResult (z : Z) | DResultOrError (z : Z) | DAny.
 
 (* Is some key or index segment unparsable for the type at its position (whatever the value)?
    Then the error is legitimate even where navigation stops earlier on a nil pointer. *)
+Definition tb_fields (rec : node -> bool) (seg : string) : list node -> bool :=
+  fix go (cs : list node) : bool :=
+    match cs with [] => false | c :: cr => if String.eqb (n_name c) seg then rec c else go cr end.
+
 Fixpoint type_bad (n : node) (path : list string) {struct n} : bool :=
   match path with
   | [] => false
@@ -16,8 +20,7 @@ Fixpoint type_bad (n : node) (path : list string) {struct n} : bool :=
     | Node ty tn tu nm pk pki p chld mk mv sl hb hc =>
       match ty with
       | typeStruct =>
-        (fix go (cs : list node) : bool :=
-           match cs with [] => false | c :: cr => if String.eqb (n_name c) seg then type_bad c rest else go cr end) chld
+        tb_fields (fun c => type_bad c rest) seg chld
       | typeMap =>
         match mk, mv with
         | Some kn, Some vn => match conv_key kn seg with None => true | Some _ => type_bad vn rest end
